@@ -182,7 +182,7 @@ def bev_term(ev):
         return "BClaim %d" % ev[1]
     if ev[0] == "end":
         return "BEnd %d" % ev[1]
-    return "BSnap [%s]" % ";".join("%d" % x for x in ev[1])
+    return "BSnap [%s]" % ";".join("%d%%nat" % x for x in ev[1])
 
 
 def seq_term(pages, c, o):
@@ -229,6 +229,88 @@ def evaluate(work, name, builtin, custom, terms):
     return parse_failures(txt)
 
 
+def execute(work, cases, stalls):
+    """Run both harness tests; (ok, output, observations, stall observations)."""
+    write_jsonl(work.path("cases.jsonl"), cases)
+    write_jsonl(work.path("stalls.jsonl"), stalls)
+    files = ["common_test.go", "assets_test.go", "c15_test.go"]
+    for f in ("obs.jsonl", "sobs.jsonl"):
+        if os.path.exists(work.path(f)):
+            os.remove(work.path(f))
+    rc, out = go_test(work, files, "^TestVerifC15$",
+                      {"VERIF_IN": work.path("cases.jsonl"), "VERIF_OUT": work.path("obs.jsonl")}, synctest=True)
+    rc2, out2 = go_test(work, files, "^TestVerifC15Stall$",
+                        {"VERIF_IN": work.path("stalls.jsonl"), "VERIF_OUT": work.path("sobs.jsonl")}, synctest=True)
+    ok = rc == 0 and rc2 == 0 and os.path.exists(work.path("obs.jsonl")) and os.path.exists(work.path("sobs.jsonl"))
+    obs = read_jsonl(work.path("obs.jsonl")) if ok else []
+    sobs = read_jsonl(work.path("sobs.jsonl")) if ok else []
+    if ok and (len(obs) != len(cases) or len(sobs) != len(stalls)
+               or any(o.get("kind") != "seq" or len(o["steps"]) != len(c["steps"]) for c, o in zip(cases[1:], obs[1:]))
+               or any("err" in o for o in sobs)):
+        ok = False
+    if not ok:
+        obs, sobs = [{}], []
+    return ok, out + out2, obs, sobs
+
+
+def judge(work, all_cases, obs0):
+    """Evaluate corr.C15corr.failures in the kernel: ({index: (agree, monitor)}, {index: {finding: monitor modulo it}})."""
+    failing, known = {}, {}
+    builtin = read_builtin()
+    custom = {}
+    for fname, hx in (obs0.get("custom_pages") or {}).items():
+        m = re.fullmatch(r"(\d+)\.html", fname)
+        b = bytes.fromhex(hx)
+        if m and b"{{" not in b:
+            custom[int(m.group(1))] = b
+    shard = 60
+    jobs = []
+    for s in range(0, len(all_cases), shard):
+        part = all_cases[s:s + shard]
+        terms = [(lambda pages, k=k, c=c, o=o: seq_term(pages, c, o) if k == "seq" else stall_term(pages, c, o))
+                 for (k, c, o) in part]
+        jobs.append((s, terms))
+    from concurrent.futures import ThreadPoolExecutor
+
+    def ev(job):
+        s, terms = job
+        return s, evaluate(work, "Cases_%d" % s, builtin, custom, terms)
+    with ThreadPoolExecutor(max_workers=12) as ex:
+        for s, fl in ex.map(ev, jobs):
+            for (j, a, m) in fl:
+                if j >= 10000:
+                    known.setdefault(s + j % 10000, {})[j // 10000] = a
+                else:
+                    failing[s + j] = (a, m)
+    return failing, known
+
+
+def replay(path):
+    """Re-run the case of a replay file alone and print what is observed and the verdicts."""
+    p = json.load(open(path))
+    work = Work(PROP + "replay")
+    try:
+        cases = [{"kind": "config", "timeout_ms": TIMEOUT_MS, "hang_ms": HANG_MS, "services": SERVICES}]
+        stalls = []
+        if p["kind"] == "seq":
+            cases.append(p["case"])
+        else:
+            stalls.append(p["case"])
+        ok, out, obs, sobs = execute(work, cases, stalls)
+        if not ok:
+            print(out[-3000:])
+            return 2
+        all_cases = [("seq", c, o) for c, o in zip(cases[1:], obs[1:])] + [("stall", c, o) for c, o in zip(stalls, sobs)]
+        print(json.dumps(strip_bodies(all_cases[0][2]), indent=1, sort_keys=True))
+        failing, known = judge(work, all_cases, obs[0])
+        a, m = failing.get(0, (True, True))
+        print("agrees with the model: %s   monitor: %s   known findings matched: %s" % (
+            a, m, [KNOWN_IDS[k] for k in known.get(0, {})]))
+        return 0 if m else 1
+    finally:
+        work.cleanup()
+
+
 def run(tier, seed):
     res = Result(PROP, tier, seed)
     work = Work(PROP)
@@ -237,51 +319,15 @@ def run(tier, seed):
         proofs_ok, pa = proof_obligations(work, res, "C15.v", ok, blog)
         cases = gen_cases(seed, tier)
         stalls = gen_stall_cases(seed, tier)
-        write_jsonl(work.path("cases.jsonl"), cases)
-        write_jsonl(work.path("stalls.jsonl"), stalls)
-        files = ["common_test.go", "assets_test.go", "c15_test.go"]
-        rc, out = go_test(work, files, "^TestVerifC15$",
-                          {"VERIF_IN": work.path("cases.jsonl"), "VERIF_OUT": work.path("obs.jsonl")}, synctest=True)
-        rc2, out2 = go_test(work, files, "^TestVerifC15Stall$",
-                            {"VERIF_IN": work.path("stalls.jsonl"), "VERIF_OUT": work.path("sobs.jsonl")}, synctest=True)
-        harness_ok = rc == 0 and rc2 == 0 and os.path.exists(work.path("obs.jsonl")) and os.path.exists(work.path("sobs.jsonl"))
-        obs = read_jsonl(work.path("obs.jsonl")) if harness_ok else []
-        sobs = read_jsonl(work.path("sobs.jsonl")) if harness_ok else []
-        if harness_ok and (len(obs) != len(cases) or len(sobs) != len(stalls)
-                           or any(o.get("kind") != "seq" or len(o["steps"]) != len(c["steps"])
-                                  for c, o in zip(cases[1:], obs[1:]))
-                           or any("err" in o for o in sobs)):
-            harness_ok = False
-        failing = {}      # global index -> (agree, monitor)
-        known = {}        # global index -> {k: monitor_modulo}
+        harness_ok, hout, obs, sobs = execute(work, cases, stalls)
+        out, out2 = hout, ""
         all_cases = [("seq", c, o) for c, o in zip(cases[1:], obs[1:])] + [("stall", c, o) for c, o in zip(stalls, sobs)]
-        if harness_ok and ok:
-            builtin = read_builtin()
-            custom = {}
-            for fname, hx in (obs[0].get("custom_pages") or {}).items():
-                m = re.fullmatch(r"(\d+)\.html", fname)
-                b = bytes.fromhex(hx)
-                if m and b"{{" not in b:
-                    custom[int(m.group(1))] = b
-            shard = 60
-            jobs = []
-            for s in range(0, len(all_cases), shard):
-                part = all_cases[s:s + shard]
-                terms = [(lambda pages, k=k, c=c, o=o: seq_term(pages, c, o) if k == "seq" else stall_term(pages, c, o))
-                         for (k, c, o) in part]
-                jobs.append((s, terms))
-            from concurrent.futures import ThreadPoolExecutor
-
-            def ev(job):
-                s, terms = job
-                return s, evaluate(work, "Cases_%d" % s, builtin, custom, terms)
-            with ThreadPoolExecutor(max_workers=12) as ex:
-                for s, fl in ex.map(ev, jobs):
-                    for (j, a, m) in fl:
-                        if j >= 10000:
-                            known.setdefault(s + j % 10000, {})[j // 10000] = a
-                        else:
-                            failing[s + j] = (a, m)
+        eval_err = ""
+        try:
+            failing, known = judge(work, all_cases, obs[0]) if harness_ok and ok else ({}, {})
+        except RuntimeError as ex:     # the observations do not even form well-typed terms / coqc failed
+            failing, known, eval_err = {}, {}, str(ex)
+            harness_ok, out = False, out + "\n" + eval_err
         # ---- verdicts
         listed = {e["id"]: e for e in known_findings(PROP)}
         real_mon, disagree, known_hits = [], [], {}
@@ -387,3 +433,10 @@ def strip_bodies(o):
             return [f(y) for y in x]
         return x
     return f(o)
+
+
+if __name__ == "__main__":
+    if len(sys.argv) == 3 and sys.argv[1] == "replay":
+        sys.exit(replay(sys.argv[2]))
+    print("usage: c15.py replay <replay file>")
+    sys.exit(2)
